@@ -108,11 +108,13 @@ func TestCheck(t *testing.T) {
 			{raftkvs.Config{NumServers: 2, NumClients: 2, MaxTerm: 3, MaxCommitIndex: 4, FIFO: true, Budgeted: true,
 				Requests: [][]raftkvs.Req{{put("k", "v1")}, {get("k")}}}, 0, "2srv-2cli", ""},
 			// leader change after an acknowledged put that one follower lacks; another client reads afterwards
-			{raftkvs.Config{NumServers: 3, NumClients: 2, MaxTerm: 4, MaxCommitIndex: 5, FIFO: true, Budgeted: true,
-				Requests: [][]raftkvs.Req{{put("k", "v1"), put("k", "v2")}, {get("k")}}}, 1, "3srv-acked-put-then-leader-change", "commit2-lagging"},
+			{raftkvs.Config{NumServers: 3, NumClients: 2, MaxTerm: 4, MaxCommitIndex: 5, FIFO: true, Budgeted: true, ExploreFail: true, MaxNodeFail: 1,
+				Requests: [][]raftkvs.Req{{put("k", "v1"), put("k", "v2")}, {get("k")}}}, 0, "3srv-acked-put-then-leader-crash", "commit2-lagging-crash"},
 		}
 		if env.Thorough() {
 			cfgs = append(cfgs,
+				runCfg{raftkvs.Config{NumServers: 3, NumClients: 2, MaxTerm: 4, MaxCommitIndex: 5, FIFO: true, Budgeted: true, DevKinds: []string{"election"},
+					Requests: [][]raftkvs.Req{{put("k", "v1"), put("k", "v2")}, {get("k")}}}, 1, "3srv-acked-put-then-spurious-election", "commit2-lagging"},
 				runCfg{raftkvs.Config{NumServers: 1, NumClients: 2, MaxTerm: 3, MaxCommitIndex: 8, FIFO: true, Budgeted: true,
 					Requests: [][]raftkvs.Req{{put("k", "v1"), get("k")}, {put("k", "v2"), get("k")}}}, 2, "1srv-2cli-2x2", ""},
 				runCfg{raftkvs.Config{NumServers: 3, NumClients: 2, MaxTerm: 3, MaxCommitIndex: 4, FIFO: true, Budgeted: true, ExploreFail: true, MaxNodeFail: 1,
